@@ -11,9 +11,12 @@ from sparse import Image
 PROPERTY = "C06"
 RULE = ("seeded generator: format v1 (BAT in sectors) / v2 (BAT in clusters), cluster size 1..2048 sectors incl. non powers "
         "of two, BAT states, placement styles (self-indexed = the sparse-run/offset coincidence, packed, reversed, shuffled), "
-        "size not a cluster multiple, optional parent chain (depth ≤ 3); requests: cluster-edge±1, multi-cluster, tail, full, "
-        "random as one history. Non-trivial = model WF, both sparse and allocated clusters, a request spanning ≥ 2 clusters; "
-        "distinct recipe hash.")
+        "size not a cluster multiple, v1 headers with arbitrary bytes in the unused upper half of the size field, optional parent "
+        "chain (depth ≤ 3); requests: cluster-edge±1, multi-cluster, tail, full, random as one history. Second family (hdd): "
+        ".hdd directories opened through HDD(path).open() — 2..5 storages mixing plain, v1 and v2 expanding images (images larger "
+        "than their storage range, snapshot chains of depth ≤ 2), DiskDescriptor.xml listing the storages in any order (mostly not "
+        "ascending by Start), requests straddling every storage boundary. Non-trivial = model WF, both sparse and allocated "
+        "clusters, a request spanning ≥ 2 clusters (hdd: ≥ 2 storages and a request crossing a storage boundary); distinct recipe hash.")
 ASSUMPTIONS = ["dissect.util AlignedStream as transcribed", "cstruct uint32[] array = little-endian u32 list", "cached_property bat (file immutable)"]
 TIMEOUT_CASE = 20.0
 
@@ -49,7 +52,11 @@ def gen_layer(rng, ver, spc, ncl, size_sectors, seed):
         phys = dict(zip(alloc, idxs))
     # v1 BAT entries are sector numbers: a data area need not start on a multiple of the cluster size
     skew = rng.randrange(1, spc) if (ver == 1 and spc > 1 and rng.random() < 0.4) else 0
-    return {"ver": ver, "spc": spc, "ncl": ncl, "size": size_sectors, "phys": {str(k): v for k, v in phys.items()}, "seed": seed, "skew": skew}
+    # v1 stores a 32-bit sector count at 0x24; the 4 bytes at 0x28 (the upper half of v2's 64-bit field) are unused by the format and
+    # need not be zero (parallels.txt: "only the lowest 4 bytes are used"): whatever an older writer left there
+    unused = rng.choice([0, 1, 0x80000000, 0xFFFFFFFF, rng.getrandbits(32), rng.getrandbits(32)]) if ver == 1 else 0
+    return {"ver": ver, "spc": spc, "ncl": ncl, "size": size_sectors, "phys": {str(k): v for k, v in phys.items()}, "seed": seed, "skew": skew,
+            "unused": unused}
 
 
 def gen_recipe(rng, tier, big=False):
@@ -79,7 +86,7 @@ def build_layer(l):
     h[0:16] = SIG1 if l["ver"] == 1 else SIG2
     struct.pack_into("<IIIII", h, 16, 2, 16, 1024, spc, ncl)
     if l["ver"] == 1:
-        struct.pack_into("<II", h, 36, l["size"], 0)
+        struct.pack_into("<II", h, 36, l["size"], l.get("unused", 0))
     else:
         struct.pack_into("<Q", h, 36, l["size"])
     struct.pack_into("<III", h, 44, 0, (64 + 4 * ncl + 511) // 512, 0)
@@ -167,7 +174,19 @@ def generate(seed, tier):
     for i in range(n):
         r = gen_recipe(rng, tier, big=(i % 25 == 3))
         align = rng.choice([8192] * 5 + [512, 512, 4096, 65536, 1 << 20, 1536])
+        if tier == "quick" and align > 65536 and len(r["layers"]) > 1 and sum(l["ncl"] for l in r["layers"]) > 2000:
+            # cost of the Lean model only: every parent request of a few sectors refills a 1 MiB stream buffer of the layer below, thousands
+            # of clusters deep => the driver needs minutes (stall watchdog, the case and its neighbours lose their model verdict); thorough keeps it
+            align = 65536
         cases.append({"id": f"g{i}", "recipe": r, "align": align, "queries": gen_queries(rng, r, 10 if tier == "quick" else 16)})
+    # storage stitching (StorageStream, HDD.open): split disks read through the directory
+    import gen_hdd
+    hrng = random.Random(f"C06hdd/{seed}/{tier}")
+    for i in range(40 if tier == "quick" else 500):
+        r = gen_hdd.gen_recipe(hrng, tier, max_depth=2 if i % 5 == 4 else 1, nst=hrng.choice([2, 2, 3, 3, 4, 5]), disorder=0.85)
+        t = gen_hdd.Truth(r)
+        cases.append({"id": f"h{i}", "fam": "hdd", "recipe": r, "align": hrng.choice([8192] * 5 + [512, 4096, 65536]),
+                      "queries": [["s", 0, 2]] + gen_hdd.gen_queries(hrng, t, 8 if tier == "quick" else 14)})
     return cases
 
 
@@ -178,7 +197,31 @@ def group_by_env(cases):
     return [({"DISSECT_STREAM_BUFFER_SIZE": a}, cs) for a, cs in sorted(by.items())]
 
 
+def build_hdd(case):
+    import gen_hdd
+    r = case["recipe"]
+    t = gen_hdd.Truth(r)
+    truth = core.truth_ops(t.size, t.read, case["queries"])
+    bounds = sorted({s["start"] * 512 for s in r["storages"]})
+    crosses = any(q[0] == "o" and any(q[1] < b < q[1] + q[2] for b in bounds[1:]) for q in case["queries"])
+    ids = {name: f"f{k}" for k, name in enumerate(t.files)}
+    toks = []
+    for tok in t.storage_tokens():
+        a, e, kind, names = tok.split(":", 3)
+        names = "+".join(("raw=" + ids[n[4:]]) if n.startswith("raw=") else ids[n] for n in names.split("+"))
+        toks.append(f"{a}:{e}:{kind}:{names}")
+    kinds = sorted({("plain" if l[0] == "P" else f"v{l[1]['layer']['ver']}") for _, ls in t.st for l in ls})
+    order = r["xml_order"]
+    b = Built({ids[n]: im for n, im in t.files.items()}, truth,
+              {"branches": ["hdd"] + kinds + (["xml-unordered"] if order != sorted(order) else []) + ([f"depth{len(r['chain'])}"] if len(r["chain"]) > 1 else []),
+               "crosses": crosses, "in_scope": True, "n": len(r["storages"]), "tokens": toks})
+    b.t = t
+    return b
+
+
 def build(case):
+    if case.get("fam") == "hdd":
+        return build_hdd(case)
     r = case["recipe"]
     t = Truth(r)
     files = {f"l{k}": im for k, (_, im, _) in enumerate(t.layers)}
@@ -194,6 +237,23 @@ def build(case):
 
 
 def impl_run(case, built):
+    if case.get("fam") == "hdd":
+        import os
+        import shutil
+        import tempfile
+        from pathlib import Path
+
+        from dissect.hypervisor.disk.hdd import HDD
+        tmp = tempfile.mkdtemp(prefix="hvc06.")
+        try:
+            d = os.path.join(tmp, "x.pvm", "x.hdd")
+            built.t.write_dir(d)
+            s = HDD(Path(d)).open()
+            if s.align != case["align"]:
+                raise RuntimeError(f"stream align {s.align} != case align {case['align']}")
+            return core.impl_ops(s, case["queries"])
+        finally:
+            shutil.rmtree(tmp, ignore_errors=True)
     from dissect.hypervisor.disk.hdd import HDS
     stream = None
     for k in range(len(built.files)):
@@ -204,17 +264,25 @@ def impl_run(case, built):
 
 
 def model_lines(case, built):
+    if case.get("fam") == "hdd":
+        st = built.info["tokens"]
+        return core.file_lines(built.files) + [f"hdd.stream {case['align']} {len(st)} " + " ".join(st) + " " + " ".join(core.op_tokens(case["queries"]))]
     ids = [f"l{k}" for k in range(len(built.files))]
     return core.file_lines(built.files) + [f"hds.open {case['align']} " + " ".join(ids),
                                            f"hds.stream {case['align']} {len(ids)} " + " ".join(ids) + " " + " ".join(core.op_tokens(case["queries"]))]
 
 
 def model_parse(case, built, out):
+    if case.get("fam") == "hdd":
+        ans = core.parse_stream_answer(out[0]) if out else None
+        return {"answers": ans, "wf": ans is not None and ans != ["E"]}
     wf = ("wf=1" in out[0]) if out and out[0].startswith("ok") else None
     return {"answers": core.parse_stream_answer(out[1]) if len(out) > 1 else None, "wf": wf, "open": out[0] if out else None}
 
 
 def nontrivial(case, built, model):
+    if case.get("fam") == "hdd":
+        return bool(model.get("wf")) and built.info["n"] >= 2 and built.info["crosses"]
     b = built.info["branches"]
     return bool(model.get("wf")) and built.info["crosses"] and "a" in b and "s" in b
 
@@ -225,6 +293,11 @@ def search(seed, broken, budget):
     for i in range(min(budget, 1500)):
         r = gen_recipe(rng, "quick")
         cases.append({"id": f"s{i}", "recipe": r, "align": rng.choice([8192, 512, 65536]), "queries": gen_queries(rng, r, 12)})
+    import gen_hdd
+    for i in range(min(budget // 8, 200)):
+        r = gen_hdd.gen_recipe(rng, "quick", max_depth=2, nst=rng.choice([2, 3, 4]), disorder=0.85)
+        cases.append({"id": f"sh{i}", "fam": "hdd", "recipe": r, "align": rng.choice([8192, 512, 65536]),
+                      "queries": [["s", 0, 2]] + gen_hdd.gen_queries(rng, gen_hdd.Truth(r), 10)})
     return cases
 
 
